@@ -62,35 +62,41 @@ impl Value {
     pub fn new(v: Value_) -> (r: Self)
         ensures *r.0 == v,
     { unimplemented!() }
+    #[verifier::external_body]
+    pub fn display(&self, env: &Env) -> (r: String)
+    { unimplemented!() }
 }
 """
 VALUE_GLUE_ASSUMPTIONS = {
     "as_ref": "Value::as_ref is Rc::as_ref: returns the payload",
     "new": "Value::new is Rc::new: the payload is the argument",
+    "display": "Value::display (values.rs:553-765) returns some String and does not panic — its recursion depth on deeply nested values is NOT under contract",
 }
 
 FMT = """
 #[verifier::external_body]
 pub fn vf_opaque_string() -> (r: String) { unimplemented!() }
 #[verifier::external_body]
+pub fn vf_opaque_string_args<T>(_args: T) -> (r: String) { unimplemented!() }
+#[verifier::external_body]
 pub fn vf_opaque_part() -> (r: MessagePart) { unimplemented!() }
 #[verifier::external_body]
+pub fn vf_opaque_part_args<T>(_args: T) -> (r: MessagePart) { unimplemented!() }
+#[verifier::external_body]
 pub fn vf_emit() { }
+#[verifier::external_body]
+pub fn vf_emit_args<T>(_args: T) { }
 """
 FMT_ASSUMPTIONS = {
-    "vf_opaque_string": "format!(..) yields some String (its text is irrelevant to every obligation) and does not panic",
+    "vf_opaque_string": "format!(..) yields some String (its text is irrelevant to every obligation); Display impls of the arguments do not panic",
+    "vf_opaque_string_args": "format!(.., args) — the argument expressions are kept and evaluated; formatting itself yields some String and does not panic",
     "vf_opaque_part": "msgtext!/msgcode! yield some MessagePart",
+    "vf_opaque_part_args": "msgtext!/msgcode! with arguments — arguments kept, result opaque",
     "vf_emit": "print macros have no effect on evaluator state",
+    "vf_emit_args": "print macros with arguments — arguments kept",
 }
 
-
-def r9(text):
-    t, n = rw.r9_format(text)
-    t = t.replace("vf::opaque_string()", "vf_opaque_string()").replace(
-        "vf::opaque_part()", "vf_opaque_part()").replace("vf::emit()", "vf_emit()")
-    return t, n
-
-
+r9 = rw.r9_format
 r9.rule_id = "R9"
 
 CLONE = rw.simple("R11", r"\b([A-Za-z_][A-Za-z0-9_]*(?:\.[A-Za-z_0-9]+)*)\.clone\(\)", r"vc_clone(&\1)")
